@@ -222,6 +222,11 @@ func randomPlan(r *rng, n int, failPct int) ([][]int, []int) {
 		}
 		plan[t] = scripts[k]
 		retries[t] = scriptRetries[k]
+		if k != 0 && r.chance(1, 8) {
+			// attempts that end differently: what counts is the final attempt
+			plan[t] = [][]int{{SKIPPARENTS, ERR}, {ERR, SKIPPARENTS}, {SKIPPARENTS, OK}}[r.intn(3)]
+			retries[t] = 1
+		}
 	}
 	if r.chance(1, 12) {
 		// a negative number of retries is "no retries": the single-attempt scripts stay what the task does
@@ -343,6 +348,15 @@ func init() {
 				}
 			}
 			spec := &Spec{N: n, Hist: hist, Plan: plan, Serial: serial, MaxPar: maxpar, PSeed: r.u64(), Buffer: r.chance(1, 3), CtxErrs: r.chance(1, 3), Literal: r.chance(1, 4), WrapSkip: r.chance(1, 3), Percent: r.chance(1, 5)}
+			spec.AttemptErrs, spec.NestedErrs, spec.Colon = r.chance(1, 3), r.chance(1, 4), r.chance(1, 8)
+			if spec.Buffer && r.chance(1, 2) {
+				spec.QuietMask = r.intn(1 << uint(n)) // tasks that write nothing
+				for t := range retries {
+					if retries[t] == 0 && r.chance(1, 3) {
+						spec.Hist = append(spec.Hist, Call{Op: "retries", A: t, R: 1 + r.intn(2)}) // retries configured, first attempt succeeds: entered once
+					}
+				}
+			}
 			if r.chance(1, 8) {
 				spec.PreTasks, spec.PreFail = 2, true // an earlier failed Run of the same graph
 			}
@@ -411,6 +425,7 @@ func init() {
 			plan, retries := randomPlan(r, n, 45)
 			serial, maxpar, mname := modeOf(idx / 5)
 			spec := &Spec{N: n, Hist: canonHist(r, n, edges, retries), Plan: plan, Serial: serial, MaxPar: maxpar, PSeed: r.u64(), Buffer: r.chance(1, 4)}
+			spec.AttemptErrs, spec.NestedErrs, spec.Colon = r.chance(1, 2), r.chance(1, 3), r.chance(1, 8)
 			switch (idx / 20) % 6 {
 			case 0, 1:
 			case 2:
@@ -523,6 +538,7 @@ func init() {
 				plan, retries := randomPlan(r, n, 10)
 				spec = &Spec{N: n, Hist: canonHist(r, n, edges, retries), Plan: plan, Policy: "eager", HoldUS: 50 + r.intn(150), NGraphs: 2 + r.intn(3), PSeed: r.u64()}
 				spec.ViaLookup = idx%3 == 0
+				spec.RetriesOnlyG0 = idx%4 == 1
 				if r.chance(1, 2) {
 					spec.MaxPar = 1 + r.intn(2)
 				}
@@ -535,7 +551,15 @@ func init() {
 				n := 2 + r.intn(8)
 				edges := randomDag(r, n, r.intn(20))
 				plan, retries := randomPlan(r, n, 25)
+				for t := range retries {
+					if retries[t] == 0 && len(plan[t]) == 1 && r.chance(1, 4) {
+						retries[t] = 1 + r.intn(2) // retries configured, the only attempt decides
+					}
+				}
 				spec = &Spec{N: n, Hist: canonHist(r, n, edges, retries), Plan: plan, Buffer: true, Chunks: 2 + r.intn(5), PSeed: r.u64()}
+				if r.chance(1, 3) {
+					spec.QuietMask = r.intn(1 << uint(n)) // tasks that write nothing
+				}
 				spec.Policy = []string{"all", "eager", "rand"}[r.intn(3)]
 				spec.HoldUS = r.intn(50)
 				if r.chance(1, 3) {
@@ -656,12 +680,14 @@ func init() {
 				}
 			}
 			spec.TickerZero = r.chance(1, 15)
+			spec.Colon = r.chance(1, 6)
 			spec.Percent = r.chance(1, 8)
 			if len(hist) > 1 && r.chance(1, 3) {
 				spec.SortAt = 1 + r.intn(len(hist)-1) // DepthFirstSort called while the graph is still being built
 			}
 			if r.chance(1, 6) {
 				spec.Buffer, spec.WriterFails = true, true // Run must return although the output writer fails
+				spec.WriterDead = r.chance(1, 2)           // ... or accepts nothing at all
 				spec.Policy = "all"
 			}
 			res := newRes(map[string]interface{}{"spec": spec})
